@@ -397,8 +397,11 @@ def timedelta(s):
             seconds = val
         else:
             raise TypeError(f'bad part {part} in {s}')
-    return datetime.timedelta(weeks=weeks, days=days, hours=hours,
-                              minutes=minutes, seconds=seconds)
+    try:
+        return datetime.timedelta(weeks=weeks, days=days, hours=hours,
+                                  minutes=minutes, seconds=seconds)
+    except OverflowError as e:
+        raise ValueError(f'interval out of range in {s}: {e}')
 
 
 stock_datatypes = {
